@@ -124,9 +124,17 @@ def std_templates():
     return t1, outer, str8, string
 
 
+def odd_string_templates():
+    """string types whose capacity is not a multiple of 4: the structure is padded to a 32-bit boundary"""
+    str5 = Template(0x126, "STR5", 12, [Member("LEN", 0xC4, 0), Member("DATA", 0xC2, 4, array=5)])
+    str7 = Template(0x127, "STR7", 12, [Member("LEN", 0xC4, 0), Member("DATA", 0xC2, 4, array=7)])
+    return str5, str7
+
+
 def std_project(mem=None, **kw):
     """the standard controller project.  mem: {tag name: [bytes]} memory images (may hold symbolic ints)"""
     t1, outer, str8, string = std_templates()
+    str5, str7 = odd_string_templates()
     mem = mem or {}
     S = lambda name, iid, typ, dims=(), **k: Symbol(name, iid, typ, dims, mem=mem.get(name), **k)
     syms = [
@@ -135,5 +143,6 @@ def std_project(mem=None, **kw):
         S("U1", 20, t1), S("UA", 21, t1, (2,)), S("O1", 22, outer), S("ST", 23, str8), S("SS", 24, string),
         S("Program:Main", 30, 0x68, system=False), S("PD", 31, 0xC4, program="Main"), S("PU", 32, t1, program="Main"),
         S("Routine:R1", 33, 0x6D, program="Main"),
+        S("S5", 25, str5), S("S5A", 26, str5, (3,)), S("S7", 27, str7),
     ]
-    return Target(symbols=syms, templates=(t1, outer, str8, string), **kw)
+    return Target(symbols=syms, templates=(t1, outer, str8, string, str5, str7), **kw)
